@@ -37,6 +37,7 @@ type Params struct {
 	RestoreCommitted bool   `json:"restore_committed,omitempty"`
 	LogCache         int    `json:"log_cache,omitempty"`
 	FSMKind          int    `json:"fsm_kind,omitempty"`
+	Protocol         int    `json:"protocol,omitempty"` // 0 = the default (3); 2 = protocol version 2 on every server
 	Pipeline         bool   `json:"pipeline,omitempty"`
 	FastPath         bool   `json:"fast_path,omitempty"`
 	NotifyBuf        int    `json:"notify_buf,omitempty"`
@@ -187,6 +188,11 @@ func (c *Cluster) conf(nd *Node) *raft.Config {
 	cf.BatchApplyCh = p.BatchApply
 	cf.ShutdownOnRemove = p.ShutdownOnRemove
 	cf.RestoreCommittedLogs = p.RestoreCommitted
+	if p.Protocol == 2 {
+		// still supported: separate IDs (equal to the addresses here), LogConfiguration entries that are not handed
+		// to the FSM, no AddNonvoter / DemoteVoter
+		cf.ProtocolVersion = 2
+	}
 	if nd.idx < len(p.PreVoteOff) {
 		cf.PreVoteDisabled = p.PreVoteOff[nd.idx]
 	}
